@@ -201,6 +201,13 @@ class Analysis:
                     c = M.callee_of(t)
                     if c and c[0].endswith("VecDeque::<T, A>::drain"):
                         cands.append(b)
+                    elif c and c[0] in ("std::mem::take", "std::mem::replace", "std::mem::swap") and t["args"]:
+                        # the whole queue is taken out at once
+                        a0 = t["args"][0]
+                        pl = a0.get("move") or a0.get("copy")
+                        ty = b.locals[pl["l"]]["s"] if (pl is not None and not pl["p"]) else ""
+                        if "VecDeque<" in ty and self.L.signal_ty.split("::")[-1] in ty:
+                            cands.append(b)
         cands = list(dict((b.name, b) for b in cands).values())
         if len(cands) != 1:
             raise Imprecision("cannot identify the signal-processing function (%d candidates)" % len(cands))
